@@ -640,12 +640,18 @@ func ruleRecordOrder(c *core.Ctx) {
 					c.Check(len(args) > 0 && args[0] == "Field.Type", rule, key+"/routine", r.Pos, "routine = "+m[1]+"(field.Type)",
 						"the per-field routine is not built from the field's own Type: "+a)
 				}
-				if a == "i" || strings.HasPrefix(a, "i ") || strings.HasSuffix(a, " i") || strings.Contains(a, " i ") {
+				ix := "i"
+				if n := len(r.LoopIx); n > 0 && r.LoopIx[n-1] != "" {
+					ix = r.LoopIx[n-1]
+				}
+				if a == ix || strings.HasPrefix(a, ix+" ") || strings.HasSuffix(a, " "+ix) || strings.Contains(a, " "+ix+" ") {
 					want := "i"
+					wantC := 0
 					if re.oneBased {
-						want = "i + 1"
+						want, wantC = "i + 1", 1
 					}
-					c.Check(a == want, rule, key+"/position", r.Pos, "positional argument is "+want, "positional argument `"+a+"` is not the field's index ("+want+")")
+					af := newAffEval(a, map[string]affine{ix: {i: 1, ok: true}}, func(string) (string, bool) { return "", false }).expr()
+					c.Check(af.ok && af.i == 1 && af.n == 0 && af.c == wantC, rule, key+"/position", r.Pos, "positional argument is "+want, "positional argument `"+a+"` is not the field's index ("+want+")")
 				}
 			}
 			if strings.HasPrefix(r.Tmpl, "CALL:") && inSet(strings.TrimPrefix(r.Tmpl, "CALL:"), re.family) {
